@@ -370,11 +370,27 @@ def strace_layer(env, prop="C15", scale="0.25"):
         # glibc's allocator sizes its arenas when a thread first allocates: it reads these files itself
         # (not tz-rs, which has no allocator of its own); everything else inside the window is reported
         libc_internal = ('"/sys/devices/system/cpu', '"/proc/sys/vm/', '"/sys/kernel/mm/')
-        inside = [ln for ln in lines[b + 1:en] if ("open" in ln or "creat(" in ln or "socket(" in ln or "connect(" in ln) and "resumed>" not in ln and not any(w in ln for w in libc_internal)]
+        cand = [ln for ln in lines[b + 1:en] if ("open" in ln or "creat(" in ln or "socket(" in ln or "connect(" in ln or "access(" in ln) and "resumed>" not in ln and "tzmon-window" not in ln and not any(w in ln for w in libc_internal)]
+        # The workload calls the default settings too (TimeZone::local, TimeZone::from_posix_tz): what they may open
+        # is fixed by C20 - /etc/localtime, <default directory>/<TZ value>, or an absolute TZ value as it is. Anything
+        # else - a relative path (working directory), another file, a socket - is ambient state.
+        import re
+        default_dirs = ("/usr/share/zoneinfo/", "/share/zoneinfo/", "/etc/zoneinfo/")
+        inside, allowed_opens = [], 0
+        for ln in cand:
+            m = re.search(r'(?:open|openat|openat2)\((?:AT_FDCWD, )?"((?:[^"\\]|\\.)*)"', ln)
+            if m and "O_RDONLY" in ln and "O_CREAT" not in ln:
+                path = m.group(1)
+                if path == "/etc/localtime" or path.startswith(default_dirs) or path in ("/abs/file", "/", "//x"):
+                    allowed_opens += 1
+                    continue
+            inside.append(ln)
         violations = list(doc.get("violations", []))
         for ln in inside[:5]:
-            violations.append(viol("ambient state: a file is opened inside the workload window although only the injected reader is configured", "strace of tzmon %s seed %d" % (prop, env.seed), "no open*/creat/socket syscall between the window markers", ln.strip(), env.seed))
-        return {"name": "strace", "profile": "release", "evaluations": int(doc.get("evaluations", 0)), "violations": violations, "replay_spec": None, "extra": {"syscalls_logged": len(lines), "open_calls_before_window": len(opens_before), "syscalls_in_window": en - b - 1, "open_calls_in_window": len(inside)}, "samples": [{"window_syscalls": en - b - 1, "first_open_before_window": opens_before[0].strip()[:160]}]}
+            violations.append(viol("ambient state: a system call inside the workload window opens something the TZ resolution rules do not name", "strace of tzmon %s seed %d" % (prop, env.seed), "read-only opens of /etc/localtime, of <default directory>/<TZ value> and of absolute TZ values only", ln.strip(), env.seed))
+        if allowed_opens == 0:
+            doc.setdefault("inconclusive", []).append("no open of /etc/localtime or a zoneinfo directory was seen inside the window: the default-settings operations did not run")
+        return {"name": "strace", "profile": "release", "evaluations": int(doc.get("evaluations", 0)), "violations": violations, "inconclusive": doc.get("inconclusive", []), "replay_spec": None, "extra": {"syscalls_logged": len(lines), "open_calls_before_window": len(opens_before), "syscalls_in_window": en - b - 1, "expected_opens_in_window": allowed_opens, "other_calls_in_window": len(inside)}, "samples": [{"window_syscalls": en - b - 1, "first_open_before_window": opens_before[0].strip()[:160]}]}
     return f
 
 
